@@ -2,6 +2,7 @@
 From HTA.lib Require Import Base.
 From HTA.model Require Import Loader_Model.
 From HTA.proof Require Import C12_Proofs.
+From HTA.proof Require Import Scale C12_Scale.
 Open Scope Z_scope.
 
 Theorem C12_host_iteration : forall l e s,
@@ -52,11 +53,9 @@ Theorem C12_last_step_end : forall l L,
 Proof. exact last_step_end. Qed.
 Print Assumptions C12_last_step_end.
 
-Theorem C12_trim_no_dup : forall incl l,
-  NoDup l ->
-  (forall g c1 c2, In g l -> is_dev g = true -> In c1 l -> In c2 l -> is_host c1 = true -> is_host c2 = true ->
-                   corr c1 = corr g -> corr c2 = corr g -> c1 = c2) ->
-  NoDup (trim incl l).
+(* no row is duplicated, for ANY event mix (however many kept host rows carry a device row's correlation id): the statement the
+   many-to-many merge repaired in 1af5ed4 violated; C01's "exactly one row per complete event" after a full load rests on it *)
+Theorem C12_trim_no_dup : forall incl l, NoDup l -> NoDup (trim incl l).
 Proof. exact trim_no_dup. Qed.
 Print Assumptions C12_trim_no_dup.
 
@@ -77,3 +76,9 @@ Example C12_nonvacuous :
   map (fun l => map (fun e => (idx e, iter e)) l) (load false [f12]) = [[(4, 3); (0, -1); (1, 3); (3, 3); (5, -1)]] /\
   map (fun l => map idx l) (load true [f12]) = [[4; 8; 0; 1; 2; 3; 5; 6; 7]].
 Proof. vm_compute. split; reflexivity. Qed.
+
+(* resolution independence: times multiplied by k > 0 change no iteration number, and the trimming keeps exactly the same rows *)
+Theorem C12_resolution_independent : forall k incl l, 0 < k ->
+  add_iter (scale_evs k l) = scale_evs k (add_iter l) /\ trim incl (scale_evs k l) = scale_evs k (trim incl l).
+Proof. intros k incl l Hk. split; [apply C12_iter_scale | apply C12_trim_scale]; exact Hk. Qed.
+Print Assumptions C12_resolution_independent.
